@@ -344,7 +344,9 @@ def _enc(v, width, endian):
 def reconfigured_width(ctx, rng):
     """The pointer type of a cstruct object is changed between two loads: structures defined afterwards use the new
     width for layout, value and dump, also for a target type that already had a pointer type before the change.
-    (Structures defined before the change are not judged: the property does not say which width they keep.)"""
+    Structures (and pointer typedefs) defined before the change: the property does not say which width they keep, but
+    whichever it is they keep it consistently -- len = bytes consumed = bytes dumped, the pointer's value is the
+    integer of that width, the member behind it is read from behind it (this had been left unjudged: defect 80)."""
     import io
 
     for w1 in PTR_TYPES:
@@ -370,6 +372,29 @@ def reconfigured_width(ctx, rng):
                     except Exception as e:  # noqa: BLE001
                         ctx.violation("width", f"reconfigured:load-fails:{type(e).__name__}", dict(detail, error=lib.exc_sig(e)))
                         continue
+                    # the structure defined before the change, and a pointer typedef made before it used afterwards
+                    try:
+                        cs2 = lib.cstruct(endian=endian, pointer=w1)
+                        cs2.load("typedef uint16 *EARLY;\n" + text_a, compiled=compiled)
+                        cs2.pointer = cs2.resolve(w2)
+                        cs2.load("struct L { uint8 lead; EARLY p; uint8 x; };", compiled=compiled)
+                        for T_ in (cs2.A, cs2.L):
+                            pw = T_.fields["p"].type.size
+                            blob = bytes(range(1, 1 + 2 + 8 + 8))
+                            st_ = io.BytesIO(blob)
+                            o_ = T_(st_)
+                            facts_ = (len(T_), st_.tell(), len(o_.dumps()), int(o_.p), int(o_.x), o_.dumps())
+                            want_ = (2 + pw, 2 + pw, 2 + pw, int.from_bytes(blob[1:1 + pw], "little" if endian == "<" else "big"),
+                                     blob[1 + pw], blob[:2 + pw])
+                            if pw not in (ALL_INTS[w1][0], width) or facts_ != want_:
+                                ctx.violation("width", "reconfigured:structure-defined-before-the-change-is-inconsistent",
+                                              dict(detail, structure=T_.__name__, pointer_size=pw, got=repr(facts_), want=repr(want_)))
+                                break
+                        else:
+                            ctx.event("earlier_definitions_consistent")
+                    except Exception as e:  # noqa: BLE001
+                        ctx.violation("width", f"reconfigured:earlier-definition-fails:{type(e).__name__}",
+                                      dict(detail, error=lib.exc_sig(e)))
                     want_size = 3 + 3 * width
                     if len(B) != want_size or B.fields["p"].type.size != width:
                         ctx.violation("width", "reconfigured:pointer-field-width-differs-from-configured-pointer-type",
